@@ -80,6 +80,10 @@ func Variants(samIn, refIn io.Reader, refFromFile bool, annoIn io.Reader, annoSu
 		}
 	}
 
+	if err := variants.CheckWindow(start, end, len(ref.Decode().Degap().Seq)); err != nil {
+		return err
+	}
+
 	cErr := make(chan error)
 
 	// do some things that are basically just sam topairalign:
